@@ -294,11 +294,15 @@ def run_cases(cases, tag, nworkers=None, watchdog=10.0, mem=3 << 30, retry_slow=
     shutil.rmtree(d, ignore_errors=True)
     if retry_slow:
         slow = [i for i, r in enumerate(results) if r.get("outcome") in ("timeout", "crash", "lost")]
-        for i in slow[:40]:
-            rr = run_cases([cases[i]], tag + "-retry", nworkers=1, watchdog=watchdog * 6, mem=mem * 2,
+        # second chance with six times the time and twice the memory, one case per worker process at a time, at most 8 at once
+        # (a regression that hangs on many inputs must not turn the check itself into a hang)
+        again = slow[:40]
+        if again:
+            rr = run_cases([cases[i] for i in again], tag + "-retry", nworkers=min(8, len(again)), watchdog=watchdog * 6, mem=mem * 2,
                            retry_slow=False, cwd=cwd)
-            results[i] = rr[0]
-            results[i]["retried"] = True
+            for i, x in zip(again, rr):
+                results[i] = x
+                results[i]["retried"] = True
     return results
 
 
@@ -433,7 +437,7 @@ def corpus():
 # ------------------------------------------------------------------ context
 
 class Ctx:
-    def __init__(self, pid, tier, seed, level="model_checking"):
+    def __init__(self, pid, tier, seed, level="model_checking", replaying=False):
         self.pid = pid
         self.tier = tier
         self.seed = seed
@@ -454,7 +458,7 @@ class Ctx:
         self.coverage_actions = {}
         # replay files of earlier runs of this property are stale
         rd = os.path.join(ROOT, "replays")
-        if os.path.isdir(rd):
+        if os.path.isdir(rd) and not replaying:
             for fn in os.listdir(rd):
                 if fn.startswith(pid + "-"):
                     try:
